@@ -207,6 +207,12 @@ func (x *Run) Mix(s string) { x.fp = fnv(x.fp, s) }
 
 // Violate records the first violation of the run. It does not stop the run.
 func (x *Run) Violate(class string, format string, args ...any) {
+	if onlyClasses != nil && !onlyClasses[class] && class != "panic" {
+		// this part is borrowed from another property's harness: only the oracles that speak
+		// for the property being checked are judged here, the rest belong to the owner's check
+		x.Probes["oracle-of-another-property:"+class]++
+		return
+	}
 	if RaceMode && class != "panic" {
 		// race-detector twin of a harness: its per-step settling is off (see Settle), so the
 		// functional oracles are not meaningful there; they are judged in the ordinary build
@@ -222,6 +228,19 @@ func (x *Run) Violate(class string, format string, args ...any) {
 	}
 	x.Viol = &Violation{Class: class, Msg: msg, Seq: x.seq, AtNs: int64(x.Now())}
 }
+
+// onlyClasses: HYSIM_ONLY="a,b,c" restricts the judged violation classes (parts with "only_classes").
+var onlyClasses = func() map[string]bool {
+	v := os.Getenv("HYSIM_ONLY")
+	if v == "" {
+		return nil
+	}
+	m := map[string]bool{}
+	for _, c := range strings.Split(v, ",") {
+		m[strings.TrimSpace(c)] = true
+	}
+	return m
+}()
 
 // RaceMode is set in race-detector builds of a harness (parts with "race": true).
 var RaceMode = os.Getenv("HYSIM_RACE") != ""
